@@ -6,6 +6,7 @@ violation: the code left the subset the proof talks about and has to be re-revie
                   reviewed `unsafe impl Send/Sync for HalfConnection`; Rc strong edges form a DAG
                   (only PacketSender.window -> PendingPacket and Server.{clients,active_clients,client_events}
                   -> RemoteClient; neither target type owns an Rc; FragmentRef holds a Weak)
+  refcell         (C03) ordering / equality / hash / drop impls never borrow a RefCell (the dynamic borrow flag is not modelled)
   pending_packet  (C20, C12, C04 ...) immutability axiom of DESIGN 4.4: inside `impl PendingPacket` the only
                   `&mut self` method is `acknowledge_fragment` and it assigns only `self.ack_flags[..]`
 """
@@ -76,7 +77,25 @@ def audit_pending_packet(src):
     return bad
 
 
-AUDITS = {'heap': audit_heap, 'pending_packet': audit_pending_packet}
+def audit_refcell(src):
+    """(C03) the vcell stand-in gives `borrow()` / `borrow_mut()` no precondition: RefCell's dynamic borrow flag is not
+    modelled (Verus has no hook for the guard's Drop), so "already borrowed" panics are outside the proof. The code
+    pattern that makes this safe is guarded here: the server pushes timer events while it holds a `RefMut` of the client
+    (`events.push(Event::new(Rc::clone(&client_rc), ..))`), and BinaryHeap::push / pop call the ordering impls of Event -
+    those impls therefore must not touch any cell; and no type's Drop impl borrows a cell either."""
+    bad = []
+    for rel, code in src.items():
+        mask = weave.scan_code(code)
+        for m in re.finditer(r'impl\s+(?:\w+::)*(Ord|PartialOrd|PartialEq|Eq|Drop|Hash)\s+for\s+(\w+)[^{]*\{', code):
+            try: close = weave.match_brace(code, mask, m.end() - 1)
+            except ValueError: continue
+            body = code[m.end():close]
+            if re.search(r'\.borrow(_mut)?\s*\(', body) or re.search(r'\.try_borrow', body):
+                bad.append(f'{rel}: impl {m.group(1)} for {m.group(2)} borrows a RefCell (it runs inside BinaryHeap / HashMap / drop glue while a RefMut may be live)')
+    return bad
+
+
+AUDITS = {'heap': audit_heap, 'pending_packet': audit_pending_packet, 'refcell': audit_refcell}
 
 
 def run(run, name):
